@@ -21,6 +21,7 @@ func init() {
 			c.BadgerBufferDiscipline("C11")
 			c.EntryAlignment("C02", s, "prop")
 			c.StateStoreDiscipline("C02", s, "prop")
+			c.MetadataImmutable("C01")
 			c.RulerLocking("C02")
 			c.OneInstance("C02", "locker", "ruler")
 			c.LockerInternals("C15") // holding the key's lock means holding it: Lock returns only with the key's one mutex acquired
